@@ -15,6 +15,7 @@ import (
 	"compiler/internal/mir"
 	"compiler/internal/types"
 	"compiler/verifharness/core"
+	"compiler/verifharness/fer"
 
 	"pgregory.net/rapid"
 )
@@ -26,7 +27,17 @@ type c18Type struct {
 	E []*c18Type `json:"e,omitempty"` // children (struct fields; [elem]; [ok, err])
 }
 type c18Case struct {
-	T *c18Type `json:"t"`
+	T *c18Type `json:"t,omitempty"`
+	// black-box half: a generated program that stores / copies / passes composite values and dumps
+	// every component after each step (decided by the differential oracle of C01)
+	Prog *progCase `json:"prog,omitempty"`
+}
+
+func (c *c18Case) Files() map[string]string {
+	if c.Prog != nil {
+		return c.Prog.Files()
+	}
+	return nil
 }
 
 var c18Prims = map[string]types.SemType{
@@ -118,6 +129,16 @@ func c18GenType(t *rapid.T, depth int) *c18Type {
 }
 
 func c18Gen(t *rapid.T, env *core.Env) any {
+	// one case in 40 is a black-box program (they cost a compilation and a run each)
+	if rapid.IntRange(0, 39).Draw(t, "blackbox") == 23 { // (a value rapid does not favour)
+		p := fer.GenerateLayouts(t, env.Use)
+		out := fer.Run(p)
+		pc := &progCase{Src: p.Source(), Expect: out.Lines, Term: out.Term, Features: p.Features, Stats: map[string]int{"steps": out.Steps, "loop_iters": 1}}
+		if out.Err != "" {
+			pc.Discard = "model: " + out.Err
+		}
+		return &c18Case{Prog: pc}
+	}
 	return &c18Case{T: c18GenType(t, rapid.IntRange(1, 4).Draw(t, "depth"))}
 }
 
@@ -269,6 +290,25 @@ func c18Inv(d *mir.DataLayout, t *c18Type, counter *int, st *c18Stats) (types.Se
 
 func c18Check(env *core.Env, ci any) (res core.Result) {
 	c := ci.(*c18Case)
+	if c.Prog != nil {
+		r := runNativeDiff(env, c.Prog, "C18")
+		r.Key = c.Prog.Src
+		r.Labels = append(r.Labels, "black_box_program")
+		if strings.HasPrefix(r.VKey, "rejected") || strings.HasPrefix(r.VKey, "compiler_") || strings.HasPrefix(r.VKey, "qbe_assert") {
+			// acceptance and compiler crashes are C01's / C13's matter
+			r.Discard = "program not compiled (C01/C13's matter): " + r.VKey
+			r.Violation, r.VKey = "", ""
+			return r
+		}
+		if r.Violation != "" {
+			r.Violation = "a component of a composite value does not keep its value (store / copy / pass / return of structs and arrays)\n" + r.Violation
+			r.VKey = "component_changed:" + r.VKey
+			return r
+		}
+		r.NonTrivial = true
+		r.Sample = fmt.Sprintf("%q", c.Prog.Src[:min(len(c.Prog.Src), 1200)])
+		return r
+	}
 	defer func() {
 		if r := recover(); r != nil {
 			res.Violation = fmt.Sprintf("panic while laying out %s: %v", c.T, r)
@@ -304,7 +344,7 @@ func c18Check(env *core.Env, ci any) (res core.Result) {
 func init() {
 	core.Register(&core.Prop{
 		ID:    "C18",
-		Rule:  "white-box: rapid-generated type expressions up to depth 4 (structs of 1-6 fields over 19 primitives of 1..32 bytes, nested structs, fixed arrays, optionals, results, references, dynamic arrays, named types) laid out by mir.NewDataLayout(8) and (4); invariants on every sub-term: size multiple of a power-of-two alignment, struct fields aligned / ordered / pairwise disjoint / inside the struct, FieldOffset consistent, array size = len x element size, optional flag byte at SizeOf(inner) inside the optional, result discriminant at alignTo(max(ok,err), align) inside the result and outside both payloads. black-box: see evidence key 'blackbox'. non-trivial = a composite with >=3 distinct primitive widths incl. one >=16 bytes, or an optional following a narrower field; distinct = the rendered type expression",
+		Rule:  "(a) white-box: rapid-generated type expressions up to depth 4 (structs of 1-6 fields over 19 primitives of 1..32 bytes, nested structs, fixed arrays, optionals, results, references, dynamic arrays, named types) laid out by mir.NewDataLayout(8) and (4); invariants on every sub-term: size multiple of a power-of-two alignment, struct fields aligned / ordered / pairwise disjoint / inside the struct, FieldOffset consistent, array size = len x element size, optional flag byte at SizeOf(inner) inside the optional, result discriminant at alignTo(max(ok,err), align) inside the result and outside both payloads. black-box: see evidence key 'blackbox'. non-trivial = a composite with >=3 distinct primitive widths incl. one >=16 bytes, or an optional following a narrower field; distinct = the rendered type expression (b) black-box (1 case in 40): rapid-generated programs with structs of 1-5 fields over 8/16/32/64-bit integers and bools (nested structs, small fixed arrays as fields), arrays of such structs and small-integer arrays between canary variables; element-wise, field-wise and whole stores, copies, by-value updates through a function; after every step every leaf of every variable is printed and compared with the reference interpreter (native executable)",
 		Gen:   c18Gen,
 		New:   func() any { return &c18Case{} },
 		Check: c18Check,
